@@ -14,6 +14,9 @@ Three kinds of case, all on the REAL functions of ombott.static_stream:
             X0.exception  static_file raised / the application answered 500
             C1.ims_304    If-Modified-Since date >= the file's mtime  ->  304        C2.body_304  ... with an empty body
             C3.unexpected_304   a 304 although the date is older than the file / not a date / absent
+            C4.zone_304 / C4.zone_unexpected_304   the same two demands for a date written with a numeric zone (+0200,
+                          -0500, +0530 ...) or an RFC 822 zone name (EST, PDT ...): what counts is the INSTANT the date
+                          denotes (computed here with datetime + tzinfo), not its wall-clock digits
             R0.status / R0.length / R0.body     no Range header: 200, Content-Length == true length, body == the file
             R1.status     a (non-empty) Range header: 206 or 416, nothing else
             R2.*          a 206 is self-consistent: Content-Range == "bytes s-l/len" with len the true length and
@@ -45,6 +48,10 @@ BOUND = ('parse: every closed a-b / open a- / suffix -k spec with a,b,k in 0..9 
          'pool built around the positions {0,1,n-2,n-1,n,n+1,B-1,B,B+1,2B,10**20} x {GET, HEAD}; If-Modified-Since: '
          'mtime in {10^9, 10^9+0.5, 0; thorough also 4102444800, 951782400.9} x date = mtime + {-86400,-1,0,+1,+86400} in RFC 1123 / RFC 850 / asctime '
          'spelling (also under the local time zones EST5EDT, IST-5:30, NZST-12NZDT), junk and non-HTTP spellings x Range in {absent, satisfiable, unsatisfiable, reversed} x {GET, HEAD}; '
+         'zoned If-Modified-Since: the instant int(mtime) + {-3600,-1,0,+1,+3600} written in the zones {+0000, +0100, +0200, '
+         '-0200, -0500, +0530, -0930, +1400, -1200, EST, EDT, PST, PDT, CST, MDT, UT} (RFC 1123 layout with numeric / named zone, RFC 850 layout with '
+         'zone, and without the weekday) x mtime in {10^9, 10^9+0.5, 1700000000; thorough also 0+86400, 4102444800} x local TZ {unset, EST5EDT; thorough also IST-5:30, NZST} x '
+         'Range {absent, bytes=1-2} x {GET, HEAD}; '
          'thorough adds seeded random mutations (20000 parse, 4000 static) of grammar headers')
 NONTRIVIAL_RULE = ('distinct case dict; non-trivial = parse/static: a non-empty Range header or an If-Modified-Since header '
                    'is present (or the plain whole-file case of a non-empty file); iter: count > 0')
@@ -139,6 +146,35 @@ def http_date(t, style):
 HTTP_STYLES = ('rfc1123', 'rfc850', 'asctime')
 OTHER_STYLES = ('iso', 'nogmt', 'length', 'offset')
 JUNK_DATES = ['garbage', 'GMT', '0', '-1', 'Thu, 99 Foo 2001 00:00:00 GMT', ',', ';']
+
+# zones: numeric offsets (minutes east of Greenwich) and the zone names RFC 822 / RFC 2822 (obs-zone) define
+NAMED_ZONES = {'UT': 0, 'EST': -300, 'EDT': -240, 'CST': -360, 'CDT': -300, 'MST': -420, 'MDT': -360, 'PST': -480, 'PDT': -420}
+ZONES = ['+0000', '+0100', '+0200', '-0200', '-0500', '+0530', '-0930', '+1400', '-1200', 'EST', 'EDT', 'PST', 'PDT', 'CST', 'MDT', 'UT']
+ZONE_LAYOUTS = ('rfc1123', 'rfc850', 'noday')
+
+
+def zone_minutes(zone):
+    if zone in NAMED_ZONES:
+        return NAMED_ZONES[zone]
+    sign = -1 if zone[0] == '-' else 1
+    return sign * (int(zone[1:3]) * 60 + int(zone[3:5]))
+
+
+def zoned_date(t, zone, layout):
+    """the instant t (POSIX seconds) written as a date in `zone`; computed with datetime + tzinfo and read back"""
+    import datetime
+    tz = datetime.timezone(datetime.timedelta(minutes=zone_minutes(zone)))
+    dt = datetime.datetime.fromtimestamp(t, tz)
+    back = datetime.datetime(dt.year, dt.month, dt.day, dt.hour, dt.minute, dt.second, tzinfo=tz)
+    assert int(back.timestamp()) == t and back.utcoffset() == datetime.timedelta(minutes=zone_minutes(zone))
+    wd, mon = dt.weekday(), _MONTHS[dt.month - 1]
+    if layout == 'rfc1123':
+        return '%s, %02d %s %04d %02d:%02d:%02d %s' % (_DAYS[wd], dt.day, mon, dt.year, dt.hour, dt.minute, dt.second, zone)
+    if layout == 'rfc850':
+        return '%s, %02d-%s-%02d %02d:%02d:%02d %s' % (_LONGDAYS[wd], dt.day, mon, dt.year % 100, dt.hour, dt.minute, dt.second, zone)
+    if layout == 'noday':
+        return '%02d %s %04d %02d:%02d:%02d %s' % (dt.day, mon, dt.year, dt.hour, dt.minute, dt.second, zone)
+    raise ValueError(layout)
 
 
 # ------------------------------------------------------------------ header pools
@@ -261,6 +297,20 @@ def gen_cases(tier, seed):
                                        ims=dict(style=style, delta=delta), tz=tz)
                     for j in (JUNK_DATES if not tz else ()):
                         yield dict(kind='static', n=n, B=4, range=rng, method=method, mtime=mt, frac=frac, ims=dict(raw=j))
+    # ---- static: If-Modified-Since written in a zone other than GMT (the instant counts, not the digits)
+    zmtimes = [(10 ** 9, 0), (10 ** 9, 5), (1700000000, 0)] if quick else [(10 ** 9, 0), (10 ** 9, 5), (1700000000, 0), (86400, 0), (4102444800, 0)]
+    for (mt, frac), tz in itertools.product(zmtimes, tzs):
+        for rng in (None, 'bytes=1-2'):
+            for method in ('GET', 'HEAD'):
+                for zone in ZONES:
+                    for delta in (-3600, -1, 0, 1, 3600):
+                        for layout in ZONE_LAYOUTS:
+                            if layout == 'rfc850' and mt > 2 * 10 ** 9:
+                                continue
+                            if layout != 'rfc1123' and (quick and (rng or tz)):
+                                continue
+                            yield dict(kind='static', n=5, B=4, range=rng, method=method, mtime=mt, frac=frac,
+                                       ims=dict(style='zone', zone=zone, layout=layout, delta=delta), tz=tz)
     if not quick:
         M = 1 << 20
         for n in (M - 1, M, M + 1, 3 * M + 1):
@@ -354,6 +404,15 @@ def ims_header(case):
     if 'raw' in ims:
         return ims['raw'], 'older'                 # not a date at all: the ordinary answer is due
     t = case['mtime'] + ims['delta']
+    if ims['style'] == 'zone':
+        value = zoned_date(t, ims['zone'], ims['layout'])
+        if ims['layout'] == 'rfc850' and not (1970 <= _civil(t + 60 * zone_minutes(ims['zone']))[0] <= 2068):
+            return value, 'either'
+        if t > case['mtime'] or (t == case['mtime'] and not case['frac']):
+            return value, 'zone-notolder'
+        if t == case['mtime']:
+            return value, 'either'                 # date == floor(mtime) < mtime: HTTP's one-second resolution
+        return value, 'zone-older'
     value = http_date(t, ims['style'])
     if ims['style'] not in HTTP_STYLES:
         return value, 'either'
@@ -417,7 +476,7 @@ def run_static(case):
     for level in (0, 1):
         lname = ('direct', 'app')[level]
         o = obs[method][level]
-        f = check_response(o, method, data, rng, ims_kind, bound)
+        f = check_response(o, method, data, rng, ims_kind, bound, ims_value)
         if f is not None:
             f['level'] = lname
             return f
@@ -486,7 +545,7 @@ def observe_app(ombott, G, name, method, headers):
     return o
 
 
-def check_response(o, method, data, rng, ims_kind, bound):
+def check_response(o, method, data, rng, ims_kind, bound, ims_value=None):
     n = len(data)
     if o.get('exc') is not None:
         return fail('X0.exception', detail=o['exc'])
@@ -501,9 +560,13 @@ def check_response(o, method, data, rng, ims_kind, bound):
     # ---- conditional
     if ims_kind == 'notolder' and code != 304:
         return fail('C1.ims_304', status=code)
+    if ims_kind == 'zone-notolder' and code != 304:
+        return fail('C4.zone_304', status=code, ims=ims_value)
     if code == 304:
         if ims_kind in ('absent', 'older'):
             return fail('C3.unexpected_304', ims=ims_kind)
+        if ims_kind == 'zone-older':
+            return fail('C4.zone_unexpected_304', ims=ims_value)
         if body:
             return fail('C2.body_304', body=body[:50])
         return None
